@@ -31,6 +31,13 @@ harness_app tls_matrix real handshakes over an in-memory duplex: the application
                        session cache for the life of the process). Scripts of returning clients (kinds res / rres: connects
                        with "keep": a raw rustls client of the harness whose ClientConfig - its resumption store - is kept
                        for the whole script, TLS 1.3 and TLS 1.2) run on the duplex and through server_main + SIGUSR1
+                       UNUSABLE CLIENT CA: a reload request (or a start-up) may find the client-CA bundle at the configured
+                       path unusable - empty, a private key, a certificate cut short, random bytes (BotchedReloadCA /
+                       BotchedStart: nothing changes, the client CA in force stays; negative control "openonbadca": such a
+                       bundle turns client authentication off). Scripts of kinds fca (duplex: reload_tls_identity /
+                       make_tls_identity called on the junk file, the result of the call logged) and rfca (server_main: the
+                       --tls-ca file overwritten in place + SIGUSR1), followed by connects without a certificate, with one
+                       of a foreign CA and with the trusted one, then restore + reload + connects
 spec/TlsTrace.tla      TLC validates every logged line; unmatched lines come back with a signature
 
 A rejected line whose signature is an `open` entry of KNOWN_FINDINGS.json (`"property":"C17","sig":...`) is printed
@@ -56,6 +63,11 @@ TIERS = {
                               "when SIGUSR1 arrives) x 1 reload x <= 1 use",
                   cli_bounds="client side: 3 connections (server certificate issued by any generation of the roots CA or by "
                              "another CA) x 1 replacement of the roots file in place",
+                  badca_bounds="unusable client-CA bundle (mutual TLS), duplex (reload_tls_identity / make_tls_identity called directly) "
+                               "and real server (SIGUSR1) alike: 2 connections, each presenting no certificate / one of a foreign CA / the "
+                               "trusted one, x 1 reload request that finds the bundle at the configured path unusable (empty / a PEM private "
+                               "key / a certificate cut short / random bytes, alternating) x 1 reload after the bundle was restored; duplex "
+                               "also x <= 1 use and optionally a START-UP on such a bundle as the first operation",
                   res_tls=("1.3", "1.2"),
                   res_bounds="returning clients that resume (a raw rustls client per client certificate whose ClientConfig is kept "
                              "for the whole script; every script once with TLS 1.3 and once with TLS 1.2 clients), duplex and real "
@@ -72,6 +84,11 @@ TIERS = {
                                  "unusable when SIGUSR1 arrives) x 2 reloads x <= 1 use",
                      cli_bounds="client side: 4 connections (server certificate issued by any generation of the roots CA or by "
                                 "another CA) x 2 replacements of the roots file in place",
+                     badca_bounds="unusable client-CA bundle (mutual TLS), duplex (reload_tls_identity / make_tls_identity called directly) "
+                                  "and real server (SIGUSR1) alike: 2 connections, each presenting no certificate / one of a foreign CA / the "
+                                  "trusted one, x 2 reload requests that find the bundle at the configured path unusable (empty / a PEM private "
+                                  "key / a certificate cut short / random bytes, alternating) x 2 reloads (each restores the bundle first); duplex "
+                                  "also x <= 1 use and optionally a START-UP on such a bundle as the first operation",
                      res_tls=("1.3", "1.2"),
                      res_bounds="returning clients that resume (a raw rustls client per client certificate whose ClientConfig is "
                                 "kept for the whole script; every script once with TLS 1.3 and once with TLS 1.2 clients): duplex 3 "
@@ -102,7 +119,13 @@ NEG_CONTROLS = {"MC_TlsAuth_neg_stale": "Fresh", "MC_TlsAuth_neg_inplace": "Undi
                 # before any connection is made (whatever is offered), and as a statement about the tickets
                 "MC_TlsAuth_neg_sharedcache": "Authenticated", "MC_TlsAuth_neg_sharedcache_id": "Fresh",
                 "MC_TlsAuth_neg_sharedcache_obs": "JudgedAsConfigured",
-                "MC_TlsAuth_neg_sharedcache_cfg": "TicketsOfThisConfiguration"}
+                "MC_TlsAuth_neg_sharedcache_cfg": "TicketsOfThisConfiguration",
+                # a server that takes a client-CA bundle without a usable certificate for "no client CA": after such a
+                # failed reload a client without the certificate gets in (real-server scripts), the CA in force is not the
+                # configured one (state), and the same at start-up (duplex scripts that begin with "badstart": whoever
+                # connects would be admitted)
+                "MC_TlsAuth_neg_openonbadca": "Authenticated", "MC_TlsAuth_neg_openonbadca_cfg": "ConfigKept",
+                "MC_TlsAuth_neg_openonbadca_start": "JudgedAsConfigured"}
 OUT_RE = re.compile(r'^<<"(CASE|SCRIPT|RSCRIPT|CSCRIPT)", "(.*)">>$')
 HEADERS = {"script": "step", "rscript": "rstep", "cscript": "cstep"}
 BAD_RE = re.compile(r'^<<"BAD", (\d+), "([^"]*)", "(.*)">>$')
@@ -149,7 +172,7 @@ def enumerate_cases(cfg):
         return any(o["op"] == "rotate" for o in s["ops"])
     # (the guards written for the scripts without rotation keep looking at those only, the ones written for the rotation
     # scripts at the scripts without returning clients)
-    plain = [s for s in scripts if not rotates(s) and not keeps(s)]
+    plain = [s for s in scripts if not rotates(s) and not keeps(s) and not badca(s)]
     rplain = [s for s in rscripts if not rotates(s) and not keeps(s) and not any(o["op"] == "botch" for o in s["ops"])]
     n_car = sum(1 for s in plain if after_reload(s, "connect"))
     n_uar = sum(1 for s in plain if after_reload(s, "use"))
@@ -177,7 +200,7 @@ def enumerate_cases(cfg):
     )
     if not all(rstats.values()):
         raise ToolError(f"vacuous real-server scripts: {rstats}")
-    for s in rscripts + [x for x in scripts if rotates(x) or keeps(x)]:
+    for s in rscripts + [x for x in scripts if rotates(x) or keeps(x) or badca(x)]:
         for o, e in zip(s["ops"], s["exp"]):
             if o["op"] == "connect" and (o["conn"] > 0) != (e["outcome"] == ["ok"]):
                 raise ToolError(f"script: slot and expectation disagree in {s}")
@@ -192,9 +215,14 @@ def enumerate_cases(cfg):
         if not all(v.values()):
             raise ToolError(f"vacuous scripts of returning clients ({k}): {v}")
     # failed reloads
-    fstats = failed_reload_stats(rscripts)
+    fstats = failed_reload_stats([x for x in rscripts if not badca(x)])
     if not all(fstats.values()):
         raise ToolError(f"vacuous failed-reload scripts: {fstats}")
+    # the client-CA bundle unusable at a reload request / at start-up
+    bad = dict(duplex=badca_stats(scripts), real=badca_stats(rscripts))
+    for k, v in bad.items():
+        if not all(n for name, n in v.items() if k == "duplex" or "badstart" not in name):
+            raise ToolError(f"vacuous scripts with an unusable client-CA bundle ({k}): {v}")
     # client side: the roots file replaced in place
     if not cscripts or len({json.dumps(s, sort_keys=True) for s in cscripts}) != len(cscripts):
         raise ToolError("vacuous or duplicated client-side script enumeration")
@@ -203,12 +231,66 @@ def enumerate_cases(cfg):
         raise ToolError(f"vacuous client-side scripts: {cstats}")
     return cells, scripts, rscripts, cscripts, dict(distinct=r["distinct"], generated=r["states"], wall=r["wall"], by=by,
                                                     connect_after_reload=n_car, use_after_reload=n_uar, real=rstats,
-                                                    rotation=rot, client=cstats, failed_reload=fstats, resume=res)
+                                                    rotation=rot, client=cstats, failed_reload=fstats, resume=res, badca=bad)
 
 
 def keeps(s):
     """a script of returning clients (connects with keep = true)"""
     return any(o.get("keep") for o in s["ops"])
+
+
+def badca(s):
+    """a script in which the client-CA bundle is unusable at a reload request or at start-up"""
+    return any(o.get("cause") == "ca" for o in s["ops"])
+
+
+def badca_stats(scripts):
+    """Number of scripts that contain each of the situations the unusable-client-CA part of the property speaks about."""
+    st = collections.Counter(scripts_with_unusable_client_ca=0, no_certificate_refused_while_unusable=0,
+                             foreign_certificate_refused_while_unusable=0, trusted_certificate_admitted_while_unusable=0,
+                             unauthenticated_refused_after_restore_and_reload=0, trusted_admitted_after_restore_and_reload=0,
+                             scripts_beginning_with_badstart=0, unauthenticated_refused_after_badstart=0)
+    for s in scripts:
+        if not badca(s):
+            continue
+        st["scripts_with_unusable_client_ca"] += 1
+        seen, broken, restored, started_bad = set(), False, False, False
+        for o, e in zip(s["ops"], s["exp"]):
+            if o["op"] in ("botch", "badstart"):
+                broken, restored = True, False
+                if o["op"] == "badstart":
+                    started_bad = True
+                    seen.add("scripts_beginning_with_badstart")
+            elif o["op"] == "reload" and broken:
+                broken, restored, started_bad = False, True, False
+            elif o["op"] == "connect":
+                ok = e["outcome"] == ["ok"]
+                if broken and not ok and o["cc"] == "none":
+                    seen.add("no_certificate_refused_while_unusable")
+                if broken and not ok and o["cc"] == "otherCA":
+                    seen.add("foreign_certificate_refused_while_unusable")
+                if broken and ok and o["cc"] == "trustedCA":
+                    seen.add("trusted_certificate_admitted_while_unusable")
+                if started_bad and not ok:
+                    seen.add("unauthenticated_refused_after_badstart")
+                if restored and not ok:
+                    seen.add("unauthenticated_refused_after_restore_and_reload")
+                if restored and ok:
+                    seen.add("trusted_admitted_after_restore_and_reload")
+                if ok != (o["cc"] == "trustedCA"):
+                    raise ToolError(f"script: a botched client CA changes who is admitted in {s}")
+        for k in seen:
+            st[k] += 1
+    return dict(st)
+
+
+def badca_situations(kind, rec):
+    """What a logged line shows of the unusable-client-CA scripts (as executed, nothing is judged here)."""
+    if rec.get("op") in ("botch", "badstart") and rec.get("cause") == "ca":
+        return [f"{kind}:{rec['op']}_client_ca_{rec.get('junk')}", f"{kind}:{rec['op']}_client_ca_{rec.get('junk')}:res={rec.get('res')}"]
+    if rec.get("op") == "connect" and rec.get("ca_broken"):
+        return [f"{kind}:connect_{rec.get('cc')}_while_client_ca_unusable"]
+    return []
 
 
 def resume_stats(scripts):
@@ -530,8 +612,13 @@ def describe(rec, exp):
                 f"   property: {json.dumps(exp, sort_keys=True)}")
     if rec.get("ev") == "step":
         ca = f" [client CA bundle: generation {rec.get('ca_gen')} at the path, {rec.get('ca_loaded')} at the last reload]" if rec.get("ca_gen") else ""
+        if rec.get("ca_broken") and rec["op"] == "connect":
+            ca += " [the client CA bundle at the configured path was UNUSABLE when the server was last asked to read it]"
         if rec["op"] in ("reload", "rotate"):
             got = f"res={rec.get('res')} to={rec.get('to')} {rec.get('err', '')[:160]}"
+        elif rec["op"] in ("botch", "badstart"):
+            got = (f"{'reload_tls_identity' if rec['op'] == 'botch' else 'make_tls_identity'} called while the client CA bundle {rec.get('path')} "
+                   f"held {rec.get('junk')} content: res={rec.get('res')} {rec.get('err', '')[:160]}")
         elif rec["op"] == "connect":
             got = (f"presenting clientCert={rec.get('cc')}{resumption_text(rec)}{ca}: client hs={rec.get('client_hs')} rt={rec.get('client_rt')} server hs={rec.get('server_hs')} rt={rec.get('server_rt')} "
                    f"client saw cn={rec.get('seen_cn')!r} serial={rec.get('seen_serial')} mtls={rec.get('mtls')} server saw client cert={rec.get('srv_saw_client_cert')} "
@@ -543,6 +630,8 @@ def describe(rec, exp):
     if rec.get("ev") == "rstep":
         seen = f"client saw cn={rec.get('seen_cn')!r} serial={rec.get('seen_serial')}"
         ca = f" [client CA bundle: generation {rec.get('ca_gen')} at the path, {rec.get('ca_loaded')} at the last reload]" if rec.get("ca_gen") else ""
+        if rec.get("ca_broken") and rec["op"] == "connect":
+            ca += " [the client CA bundle at the configured path was UNUSABLE when SIGUSR1 was last raised]"
         if rec["op"] == "reload":
             what = f"reload (SIGUSR1) to identity {rec.get('to')}{ca}"
             got = (f"res={rec.get('res')} ({rec.get('botched', 0)} failed reload(s) before) after {rec.get('polls')} probe handshakes presenting clientCert={rec.get('cc')}, last probe: "
@@ -551,7 +640,8 @@ def describe(rec, exp):
             what = f"rotate: client CA bundle {rec.get('path')} overwritten in place with generation {rec.get('to')}"
             got = f"res={rec.get('res')}"
         elif rec["op"] == "botch":
-            what = f"failed reload no. {rec.get('n')}: key file made unusable, SIGUSR1"
+            what = (f"failed reload no. {rec.get('n')}: " + (f"client CA bundle (--tls-ca) overwritten in place with {rec.get('junk')} content"
+                                                               if rec.get("cause") == "ca" else "key file made unusable") + ", SIGUSR1")
             got = f"res={rec.get('res')} server_main running={rec.get('server_running')}"
         else:
             what = (f"connect presenting clientCert={rec.get('cc')}{resumption_text(rec)} (slot {rec['conn']}){ca}" if rec["op"] == "connect" else f"use({rec['conn']})")
@@ -671,11 +761,27 @@ def self_test(work, logs, strict=True):
         # ---- scripts without rotation, real server
         # after a reload the mutual-TLS server serves a client without a certificate under the configured CA
         "reload_drops_client_auth": ("reload_drops_client_auth", lambda h, r: real(h, r) and h["mtls"] and norot(r) and r["reloads"] > 0
-                                     and r["cc"] in ("none", "otherCA") and reached(r)),
+                                     and not r.get("ca_broken") and r["cc"] in ("none", "otherCA") and reached(r)),
         "server_accepts_unauthenticated_client": ("server_accepts_unauthenticated_client", lambda h, r: real(h, r) and h["mtls"] and norot(r)
-                                                  and r["reloads"] == 0 and r["cc"] in ("none", "otherCA") and reached(r)),
+                                                  and r["reloads"] == 0 and not r.get("ca_broken") and r["cc"] in ("none", "otherCA") and reached(r)),
         "handshake_fails_after_reload": ("handshake_fails_after_reload", lambda h, r: real(h, r) and norot(r) and r["reloads"] > 0
-                                         and r["http_status"] and refused(r)),
+                                         and not r.get("ca_broken") and r["http_status"] and refused(r)),
+        # ---- the client-CA bundle unusable at a reload request / at start-up
+        # after a reload request that found the bundle unusable, a client without the certificate is served
+        "real:unusable_ca_admits_unauthenticated": ("unusable_client_ca_disables_client_auth", lambda h, r: real(h, r) and r.get("ca_broken")
+                                                    and r["cc"] in ("none", "otherCA") and not r["http_status"] and reached(r)),
+        # ... the client with the right certificate is locked out
+        "real:unusable_ca_locks_out_trusted": ("unusable_client_ca_locks_out_clients", lambda h, r: real(h, r) and r.get("ca_broken")
+                                               and r["cc"] == "trustedCA" and r["http_status"] and refused(r)),
+        "duplex:unusable_ca_admits_anonymous": ("unusable_client_ca_disables_client_auth", lambda h, r: h["ev"] == "script" and r["op"] == "connect"
+                                                and r.get("ca_broken") and r.get("botched") and r["cc"] == "none" and r["cli_data"] == ""
+                                                and both_ok(r, srv_saw_client_cert=False, srv_saw_client_cn="")),
+        # a server started on an unusable bundle serves a client of a foreign CA
+        "duplex:badstart_admits_foreign": ("unusable_client_ca_disables_client_auth", lambda h, r: h["ev"] == "script" and r["op"] == "connect"
+                                           and r.get("i") == 2 and h["ops"][0]["op"] == "badstart" and r["cc"] == "otherCA" and r["cli_data"] == ""
+                                           and both_ok(r, srv_saw_client_cert=False, srv_saw_client_cn="")),
+        # the harness's bookkeeping is bound: the failed reloads are counted
+        "duplex:botch_miscounted": ("other:malformed_line", lambda h, r: h["ev"] == "script" and r["op"] == "botch" and dict(r, n=r["n"] + 1)),
         "server_demands_client_cert_without_ca": ("server_demands_client_cert_without_ca", lambda h, r: real(h, r) and not h["mtls"]
                                                   and r["reloads"] == 0 and r["cc"] == "none" and refused(r)),
         "new_handshake_sees_stale_identity": ("new_handshake_sees_stale_identity", lambda h, r: real(h, r) and r["reloads"] > 0 and r["conn"] == 0
@@ -792,7 +898,8 @@ def check(prop, tier, seed, replay):
                 f"real-server scripts ({T['real_bounds']}), of which {mc['rotation']['duplex']['scripts_with_rotation']} / "
                 f"{mc['rotation']['real']['scripts_with_rotation']} with {T['rot_bounds']}, {mc['failed_reload']['scripts_with_failed_reload']} "
                 f"with {T['fail_bounds']}, {mc['resume']['duplex']['scripts_with_returning_clients']} / "
-                f"{mc['resume']['real']['scripts_with_returning_clients']} with {T['res_bounds']}; {len(cscripts)} client-side scripts "
+                f"{mc['resume']['real']['scripts_with_returning_clients']} with {T['res_bounds']}, {mc['badca']['duplex']['scripts_with_unusable_client_ca']} / "
+                f"{mc['badca']['real']['scripts_with_unusable_client_ca']} with {T['badca_bounds']}; {len(cscripts)} client-side scripts "
                 f"({T['cli_bounds']}); Undisturbed, Fresh, ConfigKept, CAFollows, JudgedAsConfigured, TicketsOfThisConfiguration, Authenticated, "
                 f"ClientFollowsRoots hold")
             neg = negative_controls()
@@ -887,6 +994,7 @@ def check(prop, tier, seed, replay):
                     outcome[("real", "mtls" if rec.get("mtls") else "plain", "after-reload" if rec.get("reloads") else "before-reload", rec["op"], cls)] += 1
                     executed.update(rotation_situations("real", rec, bool(rec.get("http_status"))))
                     executed.update(resume_situations("real", rec, bool(rec.get("http_status"))))
+                    executed.update(badca_situations("real", rec))
                     if script_ok is not None:
                         if i in badset:
                             script_ok[1] = False
@@ -904,6 +1012,7 @@ def check(prop, tier, seed, replay):
                     outcome[("script", rec["op"], rec.get("client_rt", rec.get("res")))] += 1
                     executed.update(rotation_situations("duplex", rec, rec.get("cli_data") == "ping" and rec.get("srv_data") == "ping"))
                     executed.update(resume_situations("duplex", rec, rec.get("cli_data") == "ping" and rec.get("srv_data") == "ping"))
+                    executed.update(badca_situations("duplex", rec))
                     if script_ok is not None:
                         if i in badset:
                             script_ok[1] = False
@@ -947,6 +1056,11 @@ def check(prop, tier, seed, replay):
             # through a full handshake (admitted / refused) after a reload - in every TLS version
             need += [f"{k}:tls{v}:{x}" for k in ("duplex", "real") for v in T["res_tls"]
                      for x in ("tickets_stored", "resumed", "offered_but_full_handshake_admitted", "offered_but_refused")]
+            # the client-CA bundle was really made unusable in each of the four ways, the server was really started on such
+            # a bundle, and clients without / with a foreign / with the trusted certificate connected while it was unusable
+            need += [f"{k}:botch_client_ca_{j}" for k in ("duplex", "real") for j in ("empty", "key", "truncated", "random")]
+            need += [f"duplex:badstart_client_ca_{j}" for j in ("empty", "key", "truncated", "random")]
+            need += [f"{k}:connect_{cc}_while_client_ca_unusable" for k in ("duplex", "real") for cc in ("none", "otherCA", "trustedCA")]
             if not rejected and any(executed[k] == 0 for k in need):
                 raise ToolError(f"vacuous run: rotation / resumption situations not executed: {[k for k in need if executed[k] == 0]}")
             st = self_test(work, [badsets["real"], badsets["scripts"]], strict=not rejected)
@@ -1009,6 +1123,7 @@ def check(prop, tier, seed, replay):
                 client_side_scripts=n_cscripts, client_side_script_bounds=T["cli_bounds"], client_side_scripts_by_content=mc["client"],
                 returning_client_script_bounds=T["res_bounds"], returning_client_scripts_by_content=mc["resume"],
                 returning_client_tls_versions=list(T["res_tls"]),
+                unusable_client_ca_script_bounds=T["badca_bounds"], unusable_client_ca_scripts_by_content=mc["badca"],
                 rotation_situations_executed=dict(sorted(executed.items())),
                 scripts_with_connect_after_reload=mc["connect_after_reload"],
                 scripts_with_use_after_reload=mc["use_after_reload"],
@@ -1058,7 +1173,21 @@ def check(prop, tier, seed, replay):
                             "other (signatures resumption_bypasses_reloaded_client_ca, resumption_shows_retired_identity, "
                             "ticket_of_retired_configuration_honoured); the run is vacuous (tool error) unless tickets were "
                             "stored, offered, resumed within a generation and pushed through a full handshake after a reload in "
-                            "each TLS version",
+                            "each TLS version. Unusable client CA: 'a server configured with a client CA completes the handshake only "
+                            "with clients presenting a certificate issued under that CA' also when the bundle at the configured path "
+                            "yields no CA certificate at the moment it is read - that is a failed reload (BotchedReloadCA: identity and "
+                            "client CA in force stay) or a failed / still closed start-up (BotchedStart), never 'no client CA' "
+                            "(ConfigKept, Authenticated, JudgedAsConfigured; negative control 'openonbadca', caught three ways). The "
+                            "scripts of kinds fca / rfca overwrite client_ca_live.pem IN PLACE with an empty file, a PEM private key, "
+                            "the CA certificate cut in half or random bytes (alternating over the scripts and the botches of a script) "
+                            "and then call reload_tls_identity (duplex; the result of the call is logged; a script may also begin with "
+                            "make_tls_identity on such a file: if it yields a server, the script goes on with that server) or raise "
+                            "SIGUSR1 (server_main; 40 ms are given to the reload task, nothing is polled); the connects that follow "
+                            "present no certificate, one of a foreign CA, the trusted one; the next reload restores the bundle first. "
+                            "TLC judges those connects by the configuration in force before the botch (signatures "
+                            "unusable_client_ca_disables_client_auth, unusable_client_ca_locks_out_clients); the run is vacuous (tool "
+                            "error) unless every kind of junk was written and each of the three clients connected while the bundle "
+                            "was unusable, on the duplex and on the real server",
             )
             vlib.write_evidence(prop, tier, seed, coverage, wall, sum(v[2] for v in violations), assumptions=[
                 "thin use of TLA+: a decision table and a small state machine serve as the reference decision procedure; "
@@ -1085,10 +1214,17 @@ def check(prop, tier, seed, replay):
                 "when both peers would reject, either may be observed to (TLS 1.2 and 1.3: the client checks first)",
                 "key generation uses the system RNG and is not reproducible; the seed selects key algorithm, name kind "
                 "(DNS / IP literal) and names of each PKI set; certificates are valid 1975-4096 (no clock dependence)",
-                "reload: same file paths with new content, as the SIGUSR1 handler does; a failing reload is modelled in one "
-                "form only (real-server scripts, op 'botch': the key file holds no key when SIGUSR1 arrives; nothing may "
-                "change and the next reload must take effect); a failing reload_tls_identity call on the duplex, unreadable "
-                "certificate / CA files and mismatching certificate and key are not exercised",
+                "reload: same file paths with new content, as the SIGUSR1 handler does; a failing reload is modelled in two "
+                "forms (op 'botch'): the key file holds no key when SIGUSR1 arrives (real-server scripts), and the client-CA "
+                "bundle yields no CA certificate - empty, a private key, a certificate cut short, random bytes - when "
+                "SIGUSR1 arrives / reload_tls_identity is called (real-server and duplex scripts, mutual TLS); nothing may "
+                "change and the next reload must take effect. A bundle holding a valid certificate NEXT to junk, a missing or "
+                "unreadable file (permissions), an unusable certificate file and mismatching certificate and key are not "
+                "exercised; on the real server a connect that follows a botched client CA may be served before the server's "
+                "reload task has read the files (40 ms are allowed, nothing is observable): such a connect is judged correctly "
+                "but says nothing; a server that comes up on an unusable bundle and refuses EVERY client (also the trusted "
+                "one) would be reported as unusable_client_ca_locks_out_clients although the property text tolerates it "
+                "(rustls cannot build such a verifier)",
                 "rotation in place = open + truncate + write of the same path (same inode); replacement by rename (a new "
                 "inode under the old name) is not exercised; all scripts of a harness process share the path of the client "
                 "CA bundle / roots file and every script starts by writing generation 0 to it; the new generations are fresh "
